@@ -61,6 +61,14 @@ def main():
         if extra:
             print('AUDIT-FAILURE axioms outside the allowlist:', extra)
             return 2
+    chk = None
+    if tier == 'thorough' and proof_ok and os.path.exists(pfile):
+        chk = engine.coqchk(pid)
+        if chk['not_allowlisted'] or not chk['ok'] and chk['rc'] == 0:
+            print('AUDIT-FAILURE coqchk:', chk)
+            return 2
+        if chk['rc'] != 0:
+            ties_broken.append('coqchk:Properties/%s.vo rejected by the independent checker' % pid)
     # 4. harness
     cfgs = spec['cfgs'][tier]
     hres = engine.build_harness(cfgs)
@@ -139,6 +147,7 @@ def main():
         'input_distribution': ctx.hist,
         'configs': cfgs,
         'ties_broken': ties_broken,
+        'coqchk': chk,
         'model_impl_disagreements': len(ctx.disagreements),
     }
     ev = {'property_id': pid, 'tier': tier, 'seed': seed, 'level': 'proof', 'coverage': cov,
